@@ -50,6 +50,11 @@ def run(repo: Repo, chk: Check) -> None:
     provider(repo, chk)
     for q in ("_rpc._client.SyncRpcClient.bind", "_rpc._client.AsyncRpcClient.bind"):
         relay(repo, chk, repo.func(q))
+    # "decrypts / produces blobs the DC's key opens": the key for the requested position is derived from whatever covering
+    # envelope the DC (or the cache filled from it) handed over (C02 chain-walk obligations)
+    from .c02 import l2_obligations
+
+    l2_obligations(repo, chk)
 
 
 TWINS = [
